@@ -17,14 +17,15 @@
        its own (the delimiter-simulation lemma of DESIGN C06/C07: the parser run on q followed by
        `)` or by the context's continuation consumes exactly q and builds the node it builds for q
        alone), and "(" q ")" parses to the AST of q.  Covered by the metamorphic harness
-       /verif/harness/cmd/embed only.  The harness REFUTES it for one class of inputs (statement-
-       level WITH ... UNION, see the report): the parser half is not a theorem of today's code.
+       /verif/harness/cmd/embed only (it refuted this half once: statement-level WITH ... UNION,
+       fixed in /repo 5f679c112; no counterexample on the corpus and the composed queries since).
      PRINTER HALF ([C07_printer_stmt], proved below under claim (D) of Embed/DepthCheck.v):
        (a) [generated obligation] every function of internal/explain that prints a SELECT query
            obeys the shift law at ALL depths: what it prints at depth d is what it prints at
            depth 0, every line indented by d more; every other function obeys it between all
            depths >= 1 (the only depth inspection is `depth == 0` in explainExplainQuery);
-           both for every call that stays out of the quarantined known findings;
+           both for every call that stays out of the quarantined known findings (the
+           quarantine list is EMPTY today: check_depth_clean computes to true);
        (b) [model] a tail-free SelectWithUnionQuery is printed identically under every unionTail,
            hence CREATE ... AS / INSERT ... SELECT / EXPLAIN print it exactly as Node would, and
            each context of Embed/EmbedContextModel.v contains the query's own lines, shifted by a
